@@ -2099,6 +2099,7 @@ def r5_listing_equals_read(ctx):
         calls = [e for e in rm.events if e[0] == "call" and e[1] in ("self.set_position", "self.rdop2nt", "self.rdop2matrix")]
         reads = [i for i, e in enumerate(calls) if e[1] == "self.rdop2matrix"]
         ok = bound = bool(reads)
+        entries = []
         for i in reads:
             ok = ok and i >= 2 and calls[i - 1][1] == "self.rdop2nt" and calls[i - 2][1] == "self.set_position" and len(calls[i][2]) == 1 \
                 and len(calls[i - 2][2]) >= 1
@@ -2111,6 +2112,7 @@ def r5_listing_equals_read(ctx):
                 bound = False          # (positioned by other means than a field of the directory entry: by name, by a stored offset)
             if ok:
                 sn = pp[1][0]
+                entries.append((sn, calls[i][4], calls[i][5]))
                 # the trailer the matrix is decoded with: the one the directory stored, or the one just re-read by rdop2nt (the same record)
                 ok = C.same(tr, F.fn("attr:trailer", sn)) or (_rat(calls[i - 1][8]) and C.same(tr, F.fn("idx", calls[i - 1][8], F.const(1))))
         if not ok and not bound:
@@ -2118,6 +2120,237 @@ def r5_listing_equals_read(ctx):
         else:
             ctx.check(ok, "rdop2mats: a positioned read seeks to the start recorded by the directory scan, re-reads name and trailer, and decodes with the "
                           "trailer of that data block", rm.fn)
+            if ok and d is not None:
+                _entries_are_matrices(ctx, d, rm, entries)
+
+
+# ---- typestate of the directory entries a matrix read is handed (kind established: 'matrix'; ('mixed', container); 'empty'; None = not known)
+_KIND_WORLD = (0, 1)          # the documented values of the kind of a data block: 0 for a table, 1 for a matrix
+
+
+def _tv(v):
+    """three-valued truth of a test, with short circuit over and / or / not"""
+    if not _rat(v):
+        return None
+    p = C.fn_parts(v)
+    if p is not None and p[0] in ("bool:And", "bool:Or") and all(_rat(a) for a in p[1]):
+        xs = [_tv(a) for a in p[1]]
+        stop = p[0] == "bool:Or"
+        if any(x is stop for x in xs):
+            return stop
+        return (not stop) if all(x is (not stop) for x in xs) else None
+    if p is not None and p[0] == "not" and len(p[1]) == 1 and _rat(p[1][0]):
+        x = _tv(p[1][0])
+        return None if x is None else not x
+    try:
+        return _decide_test(v)
+    except (Unsupported, Stuck):
+        return None
+
+
+def _guard_false(guard, subst):
+    """the path condition (atoms with polarity) is decidedly false once `subst` is applied"""
+    for c, pol in guard:
+        if _rat(c):
+            t = _tv(subst(c))
+            if t is not None and t is not bool(pol):
+                return True
+    return False
+
+
+def _scan_facts(d):
+    """what the directory scan establishes: the field of an entry that holds the kind of the data block (the value the scan tests before it skips a
+    matrix), the values of that field on the table branch, the field that holds the name, and per container the scan fills with entries whether
+    every fill lies on the matrix branch ('matrix'), or fills are made on both branches (('mixed', container)), or that is not known (None)"""
+    sns = [e for e in d.events if e[0] == "call" and (e[1] or "").endswith("SimpleNamespace")]
+    skips = [e for e in d.events if e[0] == "call" and e[1] == "self.skipop2matrix"]
+    if len(sns) != 1 or not skips or not _rat(sns[0][8]):
+        return None
+    base, kw, entry = sns[0][4], sns[0][3], sns[0][8]
+
+    def beyond(guard):
+        return tuple((c, pol) for c, pol in guard if _rat(c) and not any(_rat(c2) and c2.equals(c) and pol2 == pol for c2, pol2 in base))
+
+    scan_test = beyond(skips[0][4])
+    kind_field, table_values = None, ()
+    for f, v in kw.items():
+        if not _rat(v) or C.as_atom(v) is None:
+            continue
+        falses = [x for x in _KIND_WORLD if _guard_false(scan_test, C.renamer([(v, F.const(x))]))]
+        if falses and len(falses) < len(_KIND_WORLD):
+            if kind_field is not None:
+                return None
+            kind_field, table_values, kind_value = f, tuple(falses), v
+    if kind_field is None:
+        return None
+    rd = [e for e in d.events if e[0] == "call" and e[1] == "self.rdop2nt"]
+    name_field = None
+    for f, v in kw.items():
+        if _rat(v) and any(_rat(e[8]) and _mentions(v, e[8]) for e in rd) and f != kind_field and \
+                any(dd[0] == "fn" and dd[1] == "idx" and len(dd[2]) == 2 and C._arg(dd[2][1]).is_zero() for dd in C.walk_atoms(v)):
+            name_field = f
+    containers = {}
+    for e in d.events:
+        if e[0] != "call" or not (e[1] or "").split(".")[-1] in ("append", "add", "insert", "appendleft") or not any(_rat(a) and a.equals(entry) for a in e[2]):
+            continue
+        node = e[5].func.value if isinstance(getattr(e[5], "func", None), ast.Attribute) else None
+        while node is not None and not isinstance(node, (ast.Name, ast.Attribute)):
+            if isinstance(node, ast.Subscript):
+                node = node.value
+            elif isinstance(node, ast.Call) and isinstance(node.func, ast.Attribute) and node.func.attr in ("setdefault", "get"):
+                node = node.func.value
+            else:
+                node = None
+        recv = dotted_name(node) if node is not None else None
+        if not recv:
+            continue
+        extra = beyond(e[4])
+        if not extra:
+            k = ("mixed", recv)
+        elif all(_guard_false(extra, C.renamer([(kind_value, F.const(x))])) for x in table_values):
+            k = "matrix"
+        elif all(_guard_false(extra, C.renamer([(kind_value, F.const(x))])) for x in _KIND_WORLD if x not in table_values):
+            k = ("mixed", recv)           # (filled on the table branch only)
+        else:
+            k = None
+        containers[recv] = k if recv not in containers or containers[recv] == k else (k if containers[recv] == "matrix" else containers[recv])
+    return {"kind": kind_field, "tables": table_values, "name": name_field, "containers": containers}
+
+
+def _combine(kinds, alternatives=False):
+    """kind of a collection drawn from several: 'empty' is neutral; one 'mixed' among parts that are all candidates makes it mixed; among
+    alternatives that could not be decided (`alternatives`) a disagreement is not known"""
+    ks = [k for k in kinds if k != "empty"]
+    if not ks:
+        return "empty"
+    if any(k is None for k in ks):
+        return None
+    mixed = [k for k in ks if k != "matrix"]
+    if not mixed:
+        return "matrix"
+    if alternatives and len(mixed) != len(ks):
+        return None
+    return mixed[0]
+
+
+def _entry_kind(rm, facts, v, tests, world, depth=0):
+    """kind established for `v`, a directory entry or a collection of directory entries, as the walk of rdop2mats computed it"""
+    kf, tables = "attr:" + facts["kind"], facts["tables"]
+
+    def established(cond_guard, entry):
+        return all(_guard_false(cond_guard, C.renamer([(F.fn(kf, entry), F.const(x))])) for x in tables)
+
+    def rec(x):
+        return _entry_kind(rm, facts, x, tests, world, depth + 1)
+
+    if depth > 60:
+        return None
+    if isinstance(v, tuple):
+        return _combine([rec(x) for x in v])
+    if not _rat(v):
+        return None
+    nm = C.sym_name(v)
+    if nm is not None:
+        if nm in facts["containers"]:
+            return facts["containers"][nm]
+        if nm.startswith("filled:"):
+            local = nm[len("filled:"):].split("@")[0]
+            fills = [e for e in rm.events if e[0] == "call" and e[1] in (local + ".append", local + ".add") and len(e[2]) == 1]
+            ext = [e for e in rm.events if e[0] == "call" and (e[1] or "").startswith(local + ".") and e[1].split(".")[-1] in ("extend", "insert", "update", "__setitem__")]
+            if not fills or ext:
+                return None
+            out = []
+            for e in fills:
+                if _rat(e[2][0]) and established(e[4], e[2][0]):
+                    out.append("matrix")
+                else:
+                    tests.extend(c for c, _pol in e[4])
+                    out.append(rec(e[2][0]))
+            return _combine(out)
+        return None
+    p = C.fn_parts(v)
+    if p is None:
+        return None
+    name, args = p
+    if name == "tuple":
+        return _combine([rec(a) for a in args]) if args else "empty"
+    if name in ("idx", "each") and args:
+        return rec(args[0])
+    if name == "item" and len(args) == 2 and _rat(args[0]) and _rat(args[1]):
+        its = [t for t in rm.for_iters if _rat(t[0]) and t[0].equals(args[0])]
+        if len(its) != 1:
+            return None
+        itv = its[0][1]
+        q = C.fn_parts(itv) if _rat(itv) else None
+        if q is not None and q[0] == "call:enumerate" and q[1]:
+            return rec(q[1][0]) if args[1].equals(F.const(1)) else None
+        return rec(itv) if args[1].is_zero() else None
+    if name == "phi" and len(args) == 3:
+        t = _tv(world(args[0])) if _rat(args[0]) else None
+        if t is not None:
+            return rec(args[1] if t else args[2])
+        # (a list a loop fills under a test: the list when the test held at least once, the empty list otherwise)
+        return _combine([rec(args[1]), rec(args[2])], alternatives=True)
+    if name == "comp" and args:
+        elt = args[0]
+        wheres = [C.fn_parts(a)[1][0] for a in args[1:] if _rat(a) and (C.fn_parts(a) or ("",))[0] == "where"]
+        if _rat(elt) and established(tuple((c, True) for c in wheres), elt):
+            return "matrix"
+        tests.extend(wheres)
+        q = C.fn_parts(elt) if _rat(elt) else None
+        if q is not None and q[0] == "tuple" and len(q[1]) == 2:
+            # {key: value for ...} is walked as the comprehension of its (key, value) pairs: the candidates are the values
+            ks = [k for k in (rec(q[1][0]), rec(q[1][1])) if k is not None]
+            return _combine(ks) if ks else None
+        return rec(elt)
+    if name.startswith("call:") and name.endswith(".get"):
+        recv = name[len("call:"):-len(".get")]
+        if recv:
+            got, rest = facts["containers"].get(recv), args[1:]
+            if recv not in facts["containers"]:
+                return None
+        else:
+            got, rest = rec(args[0]) if args else None, args[2:]
+        return _combine([got] + [rec(a) for a in rest[:1]])
+    if name in ("call:list", "call:tuple", "call:sorted", "call:reversed", "call:iter") and args:
+        return rec(args[0])
+    return None
+
+
+def _entries_are_matrices(ctx, d, rm, entries):
+    """every directory entry rdop2mats positions to and hands to the matrix decoder was established to be a matrix entry: it is drawn from a
+    collection the scan fills on its matrix branch only, or a test on the kind the scan stored in the entry lies on the way"""
+    text = ("rdop2mats: every directory entry that is positioned to and handed to the matrix decoder was established to be a matrix entry (it comes "
+            "from a collection the directory scan fills for matrices only, or a test on the kind the scan stored in the entry lies on the path)")
+    facts = _scan_facts(d)
+    if facts is None or not entries:
+        ctx.error("directory: the field of a directory entry that records the kind of the data block (the value tested before a matrix is skipped) and the "
+                  "collections the scan fills could not be identified", d.fn)
+        return
+    params = [a.arg for a in rm.fn.args.args if a.arg not in ("self", "cls")]
+    world = C.renamer([(F.sym(params[0]), F.sym("None"))]) if params else (lambda x: x)     # the witness call: rdop2mats() - read every matrix
+    kf = "attr:" + facts["kind"]
+    bad, unknown = None, None
+    for sn, guard, node in entries:
+        if all(_guard_false(guard, C.renamer([(F.fn(kf, sn), F.const(x))])) for x in facts["tables"]):
+            continue
+        tests = [c for c, _pol in guard]
+        k = _entry_kind(rm, facts, sn, tests, world)
+        if k in ("matrix", "empty"):
+            continue
+        other = sorted({dd[1] for c in tests if _rat(c) for dd in C.walk_atoms(c)
+                        if dd[0] == "fn" and dd[1].startswith("attr:") and dd[1][5:] != facts["name"]})
+        if k is None or other:
+            unknown = unknown or (node, {"entry": repr(sn)[:300], "tests on fields of the entry that could not be decided": other})
+        else:
+            bad = bad or (node, {"candidates are drawn from": k[1], "which the directory scan fills": "on its table branch too",
+                                 "test on the kind of the entry (field `%s`) on the path" % facts["kind"]: "none",
+                                 "witness": "a file in which a table and a matrix carry the same data block name, read with rdop2mats(): "
+                                            "`which` = -1 / 0 / 'all' selects the table and decodes it with its trailer as a matrix"})
+    if bad is None and unknown is not None:
+        ctx.error(text + " [cannot be decided: where the candidates of a read come from is not understood]", unknown[0], unknown[1])
+    else:
+        ctx.check(bad is None, text, bad[0] if bad else rm.fn, bad[1] if bad else None)
 
 
 def _no_file_helpers(ctx, rel, cls, keep=()):
